@@ -25,7 +25,8 @@ PROPS = {
         "Every leaf count 0..600 (quick) / 0..4100 (thorough), 2^e-1, 2^e, 2^e+1 for e up to 13 / 17, SHA-256, BLAKE2b-256, SHA-512; an erroring leaf at "
         "every position of every tree with <= 33 leaves; random small trees with several erroring/empty leaves; the harness also checks that inputs are not modified; every op is mirrored as gen.merkle.* and answered by the GENERATED Hasher.Hash / EmptyRoot",
    assumptions=["hash.Hash contract: every New() returns a fresh object, Write never fails and appends, Sum(nil) is a function of the bytes written (hash_sum is an arbitrary function in the tie, H in the theorems)",
-                "MarshalBinary is a pure function of the element and does not panic (a leaf is modelled by its (bytes, error) result)",
+                "MarshalBinary is a pure function of the element and does not panic; no element of data is a nil interface (a leaf is modelled by its (bytes, error) result)",
+                "the receiver is not nil and its hash function is linked into the binary (crypto.Hash.New panics otherwise)",
                 "n < 2^63 (Go int)"],
    trusted_base=["Lean SHA-256/SHA-512/BLAKE2b-256 oracles in the driver (validated against the Go standard library by this very run)"]),
  "C04": P("C04", e2e=["Iota.Tie.E2E.Bech32", "Iota.Tie.E2E.Bech32Api"], tie="Iota.Tie.Bech32",
@@ -37,7 +38,7 @@ PROPS = {
  "C05": P("C05", e2e=["Iota.Tie.E2E.Bech32", "Iota.Tie.E2E.Bech32Api"], tie="Iota.Tie.Bech32",
    rule="ops: bech32.enc. All data lengths 0..52 x hrp lengths {0,1,2, limit-1, limit, limit+1, limit+2, 83, 84} (both sides of the 90-character rule), boundary byte fills for every length residue mod 5, "
         "invalid prefixes (empty, mixed case, non-printable, non-ASCII, containing '1'), random single-case prefixes of length 1..84 with random data 0..51 bytes",
-   assumptions=["strings.ToLower/ToUpper map ASCII strings by ASCII case mapping (structure Externs)", "len(hrp) < 2^62, len(src) < 2^60 (beyond: EncodedLen wraps and make panics, encode_panics_at_2_60)"],
+   assumptions=["strings.ToLower/ToUpper map ASCII strings by ASCII case mapping (structure Externs)", "len(hrp) < 2^62, len(src) < 2^60 (at exactly 2^60 EncodedLen wraps and make panics: encode_panics_at_2_60)"],
    trusted_base=["Go strings.ToLower/ToUpper: parameters of the translated Encode, assumed as stated, not verified"]),
  "C16": P("C16", e2e=["Iota.Tie.E2E.Bech32", "Iota.Tie.E2E.Bech32Api"], tie="Iota.Tie.Bech32",
    rule="ops: bech32.dec on corrupted code words. Per sampled valid string (incl. longest ones, window 89): ALL weight-1 substitutions of the data part, all position pairs of weight 2 "
